@@ -632,6 +632,130 @@ theorem addIndex_has {d} {s s' : Schema} {t arg cols isPk isUnique m2m}
           intro hno
           simp [hno]
 
+/-! ### column flags: `column.is_unique` is what `Column.get_sql` renders as UNIQUE; a single-column unique index reaches
+    the DDL only through this flag -/
+
+/-- the column of every single-column unique index (primary keys included) carries the `is_unique` flag -/
+def FlagInv (s : Schema) : Prop :=
+  ∀ i ∈ s.indexes, i.isUnique = true → ∀ c, i.cols = [c] →
+    ∃ col ∈ s.columns, col.table = i.table ∧ col.name = c ∧ col.isUnique = true
+
+theorem flagInv_empty : FlagInv {} := by intro i hi; cases hi
+
+theorem flagInv_of_same {s s' : Schema} (hc : s'.columns = s.columns) (hi : s'.indexes = s.indexes) (h : FlagInv s) : FlagInv s' := by
+  intro i hi' hu c hcols
+  obtain ⟨col, hcol, h1⟩ := h i (hi ▸ hi') hu c hcols
+  exact ⟨col, hc ▸ hcol, h1⟩
+
+theorem addTable_flagInv {s s' : Schema} {n src e} (h : FlagInv s) (hs : addTable s n src e = .ok s') : FlagInv s' := by
+  unfold addTable at hs
+  split at hs; · cases hs
+  split at hs; · cases hs
+  cases hs; exact flagInv_of_same rfl rfl h
+
+theorem updTable_flagInv {s : Schema} (n : Name) (f : Table → Table) (h : FlagInv s) : FlagInv (updTable s n f) :=
+  flagInv_of_same rfl rfl h
+
+theorem addEntity_flagInv {s s' : Schema} {t e r} (h : FlagInv s) (hs : addEntity s t e r = .ok s') : FlagInv s' := by
+  unfold addEntity at hs
+  split at hs; · cases hs
+  split at hs; · cases hs
+  cases hs; exact updTable_flagInv _ _ h
+
+theorem addColumn_flagInv {s s' : Schema} {t n src nn} (h : FlagInv s) (hs : addColumn s t n src nn = .ok s') : FlagInv s' := by
+  unfold addColumn at hs
+  split at hs; · cases hs
+  split at hs; · cases hs
+  cases hs
+  intro i hi hu c hcols
+  obtain ⟨col, hcol, h1⟩ := h i hi hu c hcols
+  exact ⟨col, by simp [hcol], h1⟩
+
+theorem flagColumns_unique {cs : List Column} {t cols k u} {c : Column} (h : c ∈ cs) :
+    ∃ c' ∈ flagColumns cs t cols k u, c'.table = c.table ∧ c'.name = c.name ∧
+      c'.isUnique = (c.isUnique || ((c.table == t && cols.contains c.name) && (u && cols.length == 1))) := by
+  simp only [flagColumns, List.mem_map]
+  refine ⟨_, ⟨c, h, rfl⟩, ?_⟩
+  cases hc : (c.table == t && cols.contains c.name)
+  · simp
+  · simp
+
+theorem commitIndex_flagInv {s : Schema} {t nm cols isPk uniq} (h : FlagInv s)
+    (hcols : ∀ c ∈ cols, ∃ col ∈ s.columns, col.table = t ∧ col.name = c) : FlagInv (commitIndex s t nm cols isPk uniq) := by
+  intro i hi hu c hc
+  simp only [commitIndex, List.mem_append, List.mem_singleton, setPk_indexes] at hi
+  rcases hi with hi | rfl
+  · obtain ⟨col, hcol, h1, h2, h3⟩ := h i hi hu c hc
+    obtain ⟨c', hc', e1, e2, e3⟩ := flagColumns_unique (t := t) (cols := cols) (k := isPk) (u := uniq) (by simpa using hcol : col ∈ (setPk s t isPk).columns)
+    exact ⟨c', by simpa [commitIndex] using hc', e1.trans h1, e2.trans h2, by rw [e3, h3]; rfl⟩
+  · simp only at hu hc
+    obtain ⟨col, hcol, h1, h2⟩ := hcols c (by rw [hc]; simp)
+    obtain ⟨c', hc', e1, e2, e3⟩ := flagColumns_unique (t := t) (cols := cols) (k := isPk) (u := uniq) (by simpa using hcol : col ∈ (setPk s t isPk).columns)
+    refine ⟨c', by simpa [commitIndex] using hc', e1.trans h1, e2.trans h2, ?_⟩
+    rw [e3, h1, h2, hc, hu]; simp
+
+theorem addIndex_cols {d} {s s' : Schema} {t arg cols isPk isUnique m2m}
+    (hs : addIndex d s t arg cols isPk isUnique m2m = .ok s') : ∀ c ∈ cols, ∃ col ∈ s.columns, col.table = t ∧ col.name = c := by
+  unfold addIndex at hs
+  cases hf : findTable s t with
+  | none => simp [hf] at hs
+  | some tbl =>
+    simp only [hf] at hs
+    by_cases h1 : cols.any (fun c => !(tableCols s t).any (·.name == c)) = true
+    · simp [h1] at hs
+    · intro c hc
+      simp only [List.any_eq_true, Bool.not_eq_true', not_exists, not_and, Bool.not_eq_false] at h1
+      have := h1 c hc
+      simp only [tableCols, List.mem_filter] at this
+      obtain ⟨col, ⟨hcol, ht⟩, hn⟩ := this
+      exact ⟨col, hcol, by simpa using ht, by simpa using hn⟩
+
+theorem addIndex_flagInv {d} {s s' : Schema} {t arg cols isPk isUnique m2m} (h : FlagInv s)
+    (hs : addIndex d s t arg cols isPk isUnique m2m = .ok s') : FlagInv s' := by
+  have hcols := addIndex_cols hs
+  rcases addIndex_ok hs with rfl | ⟨_, u, rfl⟩
+  · exact h
+  · exact commitIndex_flagInv h hcols
+
+theorem addFk_flagInv {d} {s s' : Schema} {c n cols p pc ix} (h : FlagInv s) (hs : addFk d s c n cols p pc ix = .ok s') : FlagInv s' := by
+  obtain ⟨_, _, _, m2m, h2⟩ := addFk_ok hs
+  have h1 : FlagInv (commitFk s c (fkNameOf d c cols n) cols p pc) := flagInv_of_same rfl rfl h
+  unfold fkIndex at h2
+  split at h2
+  · cases h2; exact h1
+  · split at h2
+    · exact addIndex_flagInv h1 h2
+    · cases h2; exact h1
+
+theorem applyOp_flagInv {d} {s s' : Schema} {op : Op} (h : FlagInv s) (hs : applyOp d s op = .ok s') : FlagInv s' := by
+  cases op with
+  | addTable n e => exact addTable_flagInv h hs
+  | addM2mTable n =>
+    simp only [applyOp] at hs
+    cases h1 : addTable s n .explicit none with
+    | error e => simp [h1, Except.map] at hs
+    | ok s1 =>
+      simp only [h1, Except.map, Except.ok.injEq] at hs
+      subst hs
+      exact updTable_flagInv _ _ (addTable_flagInv h h1)
+  | addEntity t e r =>
+    simp only [applyOp] at hs
+    split at hs
+    · exact addEntity_flagInv h hs
+    · cases hs
+  | addColumn t n nn => exact addColumn_flagInv h hs
+  | addIndex t a c p u m => exact addIndex_flagInv h hs
+  | addFk c n cols p pc ix => exact addFk_flagInv h hs
+
+theorem runOps_flagInv {d} : ∀ {ops : List Op} {s s' : Schema}, FlagInv s → runOps d s ops = .ok s' → FlagInv s'
+  | [], s, s', h, hs => by simp only [runOps, Except.ok.injEq] at hs; subst hs; exact h
+  | op :: rest, s, s', h, hs => by
+    simp only [runOps] at hs
+    split at hs
+    · rename_i s1 h1
+      exact runOps_flagInv (applyOp_flagInv h h1) hs
+    · cases hs
+
 /-- at most one column of a given name per table -/
 theorem col_unique {s : Schema} (h : Inv s) {c1 : Column} (h1 : c1 ∈ s.columns) :
     (s.columns.filter (fun c => c.table == c1.table && c.name == c1.name)).length = 1 := by
